@@ -33,9 +33,36 @@ M2 = [
     np.array([[0.5, 0.5], [1.5, 2.0], [2.5, 1.0], [3.5, 3.0], [1.0, 1.0]]),  # 5 rows
     np.array([[2.0, 2.0], [2.0, 2.0], [0.0, 1.0], [5.0, 3.0]]),  # 4 rows; the leading rows hold a single value
 ]
+# larger batches on a common range (every batch holds both ends 0 and 9 of the scale): reference 4 rows, a reference-like
+# batch of 5, a shifted batch of 11 (same floor(sqrt(n)) as the 9 pooled reference rows), and two follow-ups
+M2 += [
+    np.array([[0.0, 9.0], [9.0, 0.0], [2.0, 3.0], [3.0, 2.0]]),
+    np.array([[0.0, 9.0], [9.0, 0.0], [1.0, 2.5], [2.5, 3.5], [3.5, 1.0]]),
+    np.array([[0.0, 9.0], [9.0, 0.0], [7.0, 7.5], [7.5, 8.0], [8.0, 8.5], [8.5, 6.5], [6.5, 7.2], [7.2, 8.8], [8.8, 6.0], [6.0, 7.9], [7.9, 7.0]]),
+    np.array([[0.0, 9.0], [9.0, 0.0], [7.1, 6.9], [8.2, 7.7], [6.6, 8.4], [7.7, 7.1]]),
+    np.array([[0.0, 9.0], [9.0, 0.0], [1.5, 2.0], [2.2, 3.1], [3.0, 1.2], [2.8, 2.6]]),
+]
+BIG = [5, 6, 7, 8, 9]
 M1 = [m[:, :1].copy() for m in M2]
 
+
+def _structured(n):
+    """For batches of more than 5 rows (n! is out of reach): every transposition, every rotation and the reversal."""
+    ident = list(range(n))
+    out = []
+    for i in range(n):
+        for j in range(i + 1, n):
+            q = ident[:]
+            q[i], q[j] = q[j], q[i]
+            out.append(q)
+    for r in range(1, n):
+        out.append(ident[r:] + ident[:r])
+    out.append(ident[::-1])
+    return out
+
+
 PERMS = {n: [list(p) for p in itertools.permutations(range(n))][1:] for n in (3, 4, 5)}
+PERMS.update({n: _structured(n) for n in (6, 11)})
 
 
 def kdq_divergence(det):
@@ -207,6 +234,21 @@ def tasks(tier, seed):
                     "validate_every": 307,
                 }
             )
+        # larger batches on a common range (HDDDM / CDBD): reference + reference-like batch + an 11-row batch, then follow-ups
+        if name in ("HDDDM", "CDBD"):
+            baseb = {"id": 200 + ci, "params": params, "decisions": decisions, "menu": [6, 7, 8, 9], "max_perm": 1}
+            for perm_ref in [None] + list(range(len(PERMS[4]))):
+                out.append(
+                    {
+                        "system": name,
+                        "cfg": baseb,
+                        "prefix": [[5, perm_ref]] + ([[6, None], [7, None]] if perm_ref is not None else [[6, None]]),
+                        "depth": 1 if perm_ref is not None else 2,
+                        "label": "%s|%d|big|ref=%s" % (name, ci, perm_ref),
+                        "cost": cost * (3 if perm_ref is None else 0.2),
+                        "validate_every": 307,
+                    }
+                )
         # two permuted positions, batches of <= 4 rows only
         if tier == "thorough" or name in ("CDBD", "NNDVI"):
             base2 = {"id": 100 + ci, "params": params, "decisions": decisions, "menu": [0, 2] if name != "KdqTreeBatch" else [0, 4], "max_perm": 2}
@@ -241,6 +283,7 @@ def describe(tier):
         "rows) the batch is replaced by every one of its non-identity row permutations; every such history is run on "
         "an original/permuted pair of real detectors under identical seeds; non-trivial = history containing a permuted batch",
         "bounds": {"batch_rows": [len(m) for m in M2], "permutations_per_batch": {str(n): len(PERMS[n]) for n in PERMS},
+                   "batches_over_5_rows": "every transposition, every rotation and the reversal (n! is out of reach)",
                    "configs": [{"detector": c[0], "params": c[1], "decisions_compared": c[2]} for c in CFGS]},
         "explanation": "differential oracle; HDM distances and NNPS distance compared to 1e-12, kdq divergence recomputed from "
         "the public node counts; full decision traces compared for HDDDM/CDBD detect_batch=3, KdqTreeBatch and NNDVI",
